@@ -1,4 +1,42 @@
+(* C11 open findings: the faithful model of the implementation (Model.v agrees with the real code
+   on these inputs in every run) violates the property statement for in-sample steps whose moving
+   window is cut by the start of the series.  Witnesses by computation. *)
 From Coq Require Import ZArith QArith List Bool Lia.
-Require Import SkV.Lib.Base SkV.Lib.ZRange SkV.C11.Model.
+Require Import SkV.Lib.Base SkV.Lib.ZRange SkV.C11.Model SkV.C11.Proofs.
 Import ListNotations.
 Open Scope Z_scope.
+
+Definition q (z : Z) : oq := Some (inject_Z z).
+
+(* F-C11-2: drift, training series 1 2 4 8, window_length_ = 4 (default = len(y)).  The in-sample
+   forecast for position 2 is made from the observations 1 2 (positions 0, 1): the line through
+   the window's end points gives 3, the implementation returns 2 + (2-1)/(4-1) = 7/3. *)
+Lemma drift_short_window_refuted :
+  exists ys wl r v, r <= 0 /\ naive_predict_wl SDrift 1 wl ys [r] = Ok [Some v] /\
+    window ys (zlen ys - 2 + r) wl = [q 1; q 2] /\
+    ~ (v == line 0 1 (inject_Z 1) (inject_Z 2) 2)%Q.
+Proof.
+  exists [q 1; q 2; q 4; q 8], 4, (-1), (7 # 3)%Q. repeat split; try reflexivity; try lia.
+  vm_compute. discriminate.
+Qed.
+
+(* F-C11-1: seasonal mean, sp = 2, window_length_ = 4, series 1..6.  The in-sample forecast for
+   position 2 is made from the observations at positions 0, 1; position 0 is in the target's
+   season, so the textbook value is defined (1), the implementation raises (reshape). *)
+Lemma seasonal_mean_short_window_refuted :
+  exists ys sp wl r, r <= 0 /\ naive_predict_wl SMean sp wl ys [r] = Err /\
+    nanmean (sel (fun p => congb sp p (zlen ys - 1 + r)) 0 (window ys (zlen ys - 2 + r) wl))
+    = Some (inject_Z 1 / inject_Z 1)%Q.
+Proof.
+  exists [q 1; q 2; q 3; q 4; q 5; q 6], 2, 4, (-3). repeat split; try reflexivity; lia.
+Qed.
+
+(* F-C11-3: seasonal last, sp = 3, series 1 2 3 4.  No observation before position 1 is in
+   position 1's season, yet the in-sample forecast for position 1 is the first observation. *)
+Lemma seasonal_last_short_window_refuted :
+  exists ys sp r, r <= 0 /\ naive_predict_wl SLast sp sp ys [r] = Ok [q 1] /\
+    (forall p, 0 <= p < zlen ys - 1 + r -> congb sp p (zlen ys - 1 + r) = false).
+Proof.
+  exists [q 1; q 2; q 3; q 4], 3, (-2). repeat split; try reflexivity; try lia.
+  intros p Hp. assert (p = 0) by (cbn in Hp; lia). subst p. reflexivity.
+Qed.
